@@ -91,7 +91,7 @@ pub proof fn lemma_upto_step<'src, S>(sch: &Schema<S, Pos>, vars: Option<&Variab
 //@   loops 1
 //@   loop 0 iter_name it
 //@   loop 0 invariant [C03+C04+C05.dirs.loop.iter] it.seq().len() == directives@.len() && 0 <= it.index@ <= it.seq().len() && (forall|i: int| 0 <= i < it.seq().len() ==> *it.seq()[i] == directives@[i])
-//@   loop 0 invariant [C03+C04+C05.dirs.loop.frame] crate::extends_errs(old(result)@, result@)
+//@   loop 0 invariant [C03+C04+C05.dirs.loop.frame] crate::extends_errs(old(result)@, result@) && crate::schema_wf(definitions)
 //@   loop 0 invariant [C03+C04+C05.dirs.loop.seen] crate::seen_defined(crate::names_view(seen_directives), definitions, directives@, it.index@ as int)
 //@   loop 0 invariant [C03+C04+C05.dirs.loop.exact] (result@.len() == old(result)@.len()) <==> crate::dirs_valid_upto(definitions, variables, directives@, current_position@, it.index@ as int)
 //@   loop 0 prefix broadcast use crate::text_model; let ghost mut n: int = 0; let ghost seen0 = seen_directives@; let ghost len_a = result@.len(); proof { n = it.index@ as int; crate::axiom_text_obeys::<S>(); crate::axiom_text_obeys_str::<S>(); crate::axiom_str_obeys(); crate::lemma_upto_step(definitions, variables, directives@, current_position@, n); assert(*d == directives@[n]); }
